@@ -43,7 +43,7 @@ def main():
     leg = base.Leg(
         "c07-exactly-one-reply-e2e", "C07",
         "real erbium-dns in a private netns with a scripted upstream: batches of up to 256 UDP queries in flight from distinct "
-        "source ports with upstream replies delayed in random permutations, duplicated, sent with a wrong id, truncated (TC -> TCP) "
+        "source ports with upstream replies delayed in random permutations, held until half of the burst has reached the upstream, duplicated (UDP and on the shared upstream TCP connection), sent with a wrong id, truncated (TC -> TCP) "
         "or dropped for the first k transmissions (k=0..3, and all); TCP queries one per connection incl. split length prefix / split "
         "body / slow reader of a 60 KiB reply; bursts of concurrent TCP queries sharing the upstream TCP channel; listeners v4-only, "
         "v6-only and dual-stack reached over v4 and v6 on non-default local addresses; per query: exactly one response, id and answer "
@@ -58,6 +58,7 @@ def main():
         # the kernel in one write while the client reads slowly
         base.sh("sysctl -qw net.ipv4.tcp_wmem='4096 4096 4096'", check=False)
         plans = {}
+        batch_seen = {}
         plans_lock = threading.Lock()
 
         def script(qn, proto, nth, q):
@@ -73,6 +74,19 @@ def main():
             good = dnslib.build_reply(q, answers=ans)
             if pl.kind == "silent":
                 return [("drop",)]
+            if getattr(pl, "batch", None) is not None:
+                with plans_lock:
+                    batch_seen.setdefault(pl.batch, set()).add(case)
+            if pl.kind == "barrier":
+                # held until the upstream has seen `need` queries of the same batch: a schedule in which this
+                # reply comes after the others, whatever order the server reads its socket in
+                def ready(pl=pl):
+                    with plans_lock:
+                        return len(batch_seen.get(pl.batch, ())) >= pl.need
+                return [("when", ready, good, 60.0)]
+            if proto == "tcp" and pl.kind == "dup":
+                # the same answer twice on the shared upstream connection while other queries are outstanding
+                return [("reply", good, pl.delay), ("reply", good, pl.delay + 0.03)]
             if proto == "tcp":
                 if pl.big:
                     txt = b"".join(bytes([255]) + bytes([65 + (case % 26)]) * 255 for _ in range(pl.big // 256))
@@ -148,8 +162,15 @@ def main():
         for rr in range(rounds):
             for lname in listeners:
                 threads = []
+                batch_id = "%s-%d" % (lname, rr)
                 for i in range(nbatch):
                     roll = rnd.random()
+                    if i < 4:
+                        # the first queries of the burst are answered only after most of the burst has reached the upstream
+                        c = new_case("barrier")
+                        plans[c].batch, plans[c].need = batch_id, nbatch // 2
+                        threads.append(threading.Thread(target=one_udp, args=(c, lname, 45.0)))
+                        continue
                     if roll < 0.55:
                         c = new_case("ok", delay=rnd.random() * 0.6)
                     elif roll < 0.65:
@@ -160,10 +181,52 @@ def main():
                         c = new_case("tc", delay=rnd.random() * 0.2)
                     else:
                         c = new_case("drop", drops=rnd.choice([1, 1, 2, 2, 3] if thorough else [1, 1, 2]))
+                    plans[c].batch = batch_id
                     threads.append(threading.Thread(target=one_udp, args=(c, lname, 45.0)))
                 run_batch(threads)
                 leg.count("udp_batches", 1)
                 leg.max("max_in_flight", nbatch)
+        # ---- phase A2: back-to-back bursts in which EVERY reply is held until the upstream has seen (almost) the whole burst
+        import select as _select
+        nb = 24
+        for rr in range(3 if thorough else 1):
+            for lname in listeners:
+                fam, dst, _ = listeners[lname]
+                batch_id = "all-%s-%d" % (lname, rr)
+                socks = []
+                for i in range(nb):
+                    c = new_case("barrier")
+                    plans[c].batch, plans[c].need, plans[c].variant = batch_id, nb - 1, "all-held-burst"
+                    sk = socket.socket(fam, socket.SOCK_DGRAM)
+                    sk.setblocking(False)
+                    qid = rnd.randrange(65536)
+                    socks.append((sk, c, qid, dnslib.build_query(qid, "q%d.c07.test" % c, edns=1232)))
+                for (sk, c, qid, q) in socks:  # one thread, no pauses: the datagrams queue up behind one wake-up
+                    sk.sendto(q, dst)
+                got = {}
+                end = time.monotonic() + 14.0
+                while time.monotonic() < end and len(got) < nb:
+                    r, _, _ = _select.select([x[0] for x in socks if x[1] not in got], [], [], 0.5)
+                    for sk in r:
+                        for (s2, c, qid, q) in socks:
+                            if s2 is sk:
+                                try:
+                                    d_, frm = sk.recvfrom(65535)
+                                    got.setdefault(c, []).append((d_, frm))
+                                except OSError:
+                                    pass
+                time.sleep(0.3)
+                for (sk, c, qid, q) in socks:
+                    try:
+                        while True:
+                            d_, frm = sk.recvfrom(65535)
+                            got.setdefault(c, []).append((d_, frm))
+                    except OSError:
+                        pass
+                    sk.close()
+                    with rlock:
+                        results.append((c, lname, "udp", qid, got.get(c, []), None))
+                leg.count("all_held_bursts", 1)
         # ---- phase B: TCP variants
         for lname in listeners:
             threads = []
@@ -187,8 +250,12 @@ def main():
         for b in range(bursts):
             threads = []
             for i in range(per):
-                c = new_case("ok", delay=1.0)
-                plans[c].variant = "tcp-burst"
+                if i % 10 == 3:
+                    c = new_case("dup", delay=0.2)
+                    plans[c].variant = "tcp-burst-dup"
+                else:
+                    c = new_case("ok", delay=1.0)
+                    plans[c].variant = "tcp-burst"
                 threads.append(threading.Thread(target=one_tcp, args=(c, "v4only" if i % 2 else "dual-via-v6", 40.0)))
             run_batch(threads)
             leg.count("tcp_bursts", 1)
